@@ -213,12 +213,12 @@ int main(int argc, char **argv)
         }
     }
     if(T) {
-        // all well-nested strings of length 4 over all 17 symbols
-        gen::type_strings(std::string(gen::VALUE_TAGS) + "[]", 4, 4, types);
+        // all well-nested strings of length 4 and 5 over all 17 symbols
+        gen::type_strings(std::string(gen::VALUE_TAGS) + "[]", 4, 5, types);
     }
     const size_t max_addr = T ? 64 : 9;
     vp::bound("type_strings_len0-3_all17symbols", (long long)n_full);
-    vp::bound("type_strings_len4+", std::to_string(types.size() - n_full) + (T ? " (length 4..6 over {i h s b T m [ ]}, all of length 4 over the 17 symbols, all rotations of the 15 value tags at lengths 8/16/40/100/300 plain and bracketed)" : " (length 4..5 over {i h s b T m [ ]}, rotations of the 15 value tags at lengths 8/16/40 plain and bracketed)"));
+    vp::bound("type_strings_len4+", std::to_string(types.size() - n_full) + (T ? " (length 4..6 over {i h s b T m [ ]}, all of length 4..5 over the 17 symbols, all rotations of the 15 value tags at lengths 8/16/40/100/300 plain and bracketed)" : " (length 4..5 over {i h s b T m [ ]}, rotations of the 15 value tags at lengths 8/16/40 plain and bracketed)"));
     vp::bound("address_lengths", "1.." + std::to_string(max_addr));
     vp::bound("value_vectors", "full cross product for <=2 data tags, each-used + all-last beyond");
 
